@@ -1094,6 +1094,8 @@ impl Vm {
                 .expect("Expected ExcHandler.");
             (handler.finally_ip, handler.init_stack_size)
         };
+        let handler_count = self.active_fiber().exc_handlers.len();
+        self.active_fiber_mut().return_handler_count = handler_count;
         self.active_fiber_mut().close_upvalues(init_stack_size);
         self.active_fiber_mut().stack.truncate(init_stack_size);
         self.ip = new_ip;
@@ -1551,6 +1553,10 @@ impl Vm {
             return Err(self.new_error_from_value(exc_object));
         };
 
+        if self.active_fiber().exc_handlers.len() < self.active_fiber().return_handler_count {
+            // The exception leaves the finally block a return was parked for: it supersedes it.
+            self.active_fiber_mut().take_return_data();
+        }
         self.active_fiber_mut()
             .close_upvalues(handler.init_stack_size);
         self.active_fiber_mut()
